@@ -27,7 +27,7 @@ T_SEND = "puresnmp.transport:send_udp"
 
 
 class SendUdp(VU):
-    props = ("C13",)
+    props = ("C13", "C20")
     target = T_SEND
     functions = (T_SEND, "puresnmp.transport:SNMPClientProtocol.__init__", "puresnmp.transport:SNMPClientProtocol.connection_made",
                  "puresnmp.transport:SNMPClientProtocol.datagram_received", "puresnmp.transport:SNMPClientProtocol.error_received",
@@ -219,6 +219,8 @@ class SendUdp(VU):
         ctx.check(oname("C13", T_SEND, "ensures", "no-socket-left-open-on-any-exit"), self.all_closed())
         ctx.check(oname("C13", T_SEND, "ensures", "at-most-`retries`-transmissions-of-the-identical-request"),
                   And(self.payloads_ok(interp), total_attempts <= self.R0))
+        # C20: whatever arrives (also an empty datagram), the sender does not resend without bound
+        ctx.check(oname("C20", T_SEND, "ensures", "no-datagram-makes-the-sender-transmit-more-than-`retries`-times"), total_attempts <= self.R0)
         if exc is None:
             last = self.outcome_log[-1] if self.outcome_log else None
             ok = last is not None and last[0] == "reply"
